@@ -353,6 +353,19 @@ func execReply(clipHint string, payload []byte, serversTok string) []string {
 			ln = e.ln
 		}
 	}
+	// "<ip>:<port>": the client also binds a given source port (the reply echoes it: the extremes of the 16-bit range matter);
+	// when the port is taken the default is used
+	hintPort := 0
+	if h, pt, ok := strings.Cut(clipHint, ":"); ok && clipHint != "6" {
+		clipHint = h
+		hintPort, _ = strconv.Atoi(pt)
+	}
+	if hint := net.ParseIP(clipHint).To4(); client == nil && hint != nil && hint[0] == 127 && hintPort != 0 {
+		d := net.Dialer{LocalAddr: &net.TCPAddr{IP: hint, Port: hintPort}, Timeout: 5 * time.Second}
+		if c, err := d.Dial("tcp4", target); err == nil {
+			client = c.(*net.TCPConn) // nolint: forcetypeassert
+		}
+	}
 	if hint := net.ParseIP(clipHint).To4(); client == nil && hint != nil && hint[0] == 127 {
 		d := net.Dialer{LocalAddr: &net.TCPAddr{IP: hint, Port: 0}, Timeout: 5 * time.Second}
 		if c, err := d.Dial("tcp4", target); err == nil {
@@ -713,6 +726,8 @@ func clipHint(rng *rand.Rand) string {
 		return fmt.Sprintf("m:127.%d.%d.%d", rng.Intn(256), rng.Intn(256), 1+rng.Intn(254))
 	case 2: // an IPv6 client
 		return "6"
+	case 3: // a client on a source port at the edges of the 16-bit range
+		return fmt.Sprintf("127.%d.%d.%d:%d", rng.Intn(256), rng.Intn(256), 1+rng.Intn(254), []int{65535, 65535, 65534, 65280, 32768, 1023}[rng.Intn(6)])
 	}
 	if rng.Intn(3) == 0 {
 		return "127.0.0.1"
